@@ -134,6 +134,7 @@ def run_cfg(ctx, fx):
         "actor::builder::ActorBuilderWithChannel::<A, P, R>::timeout": "Some",
         "actor::builder::ActorBuilderWithChannel::<A, P, R>::fail_on_timeout": "flag",
     }
+    flag_fields = set()
     for s, kind in setters.items():
         f = fx.fn(s)
         if not ctx.require(f is not None, "R11.1", "setter:" + s, "builder setter %s not found" % s):
@@ -153,6 +154,19 @@ def run_cfg(ctx, fx):
                             good = all(x.kind == "arg" and x.site == 2 and not x.proj for x in roots(b, ast["r"]["ops"][0]))
             if kind == "flag":
                 good = all(x.kind == "arg" and x.site == 2 and not x.proj for x in roots(b, r["o"]))
+                if not good:
+                    # ... or re-encoded as a two-variant enum by a crate-local pure function of the argument alone
+                    os_ = b.origins(r["o"], through_calls=False)
+                    if len(os_) == 1 and next(iter(os_)).kind == "call":
+                        ct = b.call_at(next(iter(os_)))
+                        g_ = fx.callee_fn(ct)
+                        bm = nfa.bool_enum_map(fx, g_) if g_ is not None else None
+                        if bm is not None and not bm["proj"] and bm["param"] < len(ct["args"]):
+                            good = all(x.kind == "arg" and x.site == 2 and not x.proj for x in roots(b, ct["args"][bm["param"]]))
+                # which field of the configuration holds the flag (by what this setter writes, not by its name)
+                pr_ = [e for e in st["p"][1:] if e != "*"]
+                if good and pr_:
+                    flag_fields.add(pr_[-1])
         returns_self = all(x.kind == "arg" and x.site == 1 for x in roots(b, {"k": "move", "p": [0]}) if not (x.proj and str(x.proj[0]).startswith("<part:")))
         always = len(stores) == 1 and b.on_all_paths_to_return(stores[0][0])
         ctx.require(good and len(stores) == 1 and returns_self and always, "R11.1", "setter:" + s.split("::", 2)[-1], "the setter must store its argument unmodified in the builder's config and return the builder", fn=s, site=f["loc"])
@@ -220,9 +234,12 @@ def run_cfg(ctx, fx):
     paths = {i: cap_path(i) for i in range(len(caps or []))}
     t_field = cfg_fields.index("timeout") if "timeout" in cfg_fields else -1
     f_field = cfg_fields.index("fail_on_timeout") if "fail_on_timeout" in cfg_fields else -1
+    if f_field < 0 and len(flag_fields) == 1 and next(iter(flag_fields))[1:].isdigit() and int(next(iter(flag_fields))[1:]) < len(cfg_fields):
+        f_field = int(next(iter(flag_fields))[1:])  # the field was renamed: it is the one the fail_on_timeout setters write
+    f_name = cfg_fields[f_field] if f_field >= 0 else "fail_on_timeout"
     # where the configuration lives in the loop's captures: the two fields captured on their own, or the whole config
     t_idx = [i for i, p in paths.items() if p == "config.timeout"]
-    f_idx = [i for i, p in paths.items() if p == "config.fail_on_timeout"]
+    f_idx = [i for i, p in paths.items() if p == "config." + f_name]
     c_idx = [i for i, p in paths.items() if p == "config"]
     if not ctx.require((len(t_idx) == 1 and len(f_idx) == 1) or len(c_idx) == 1, "R11.1", "loop-captures-config", "the plain loop must capture config.timeout and config.fail_on_timeout (or the config): captures %s" % paths, fn=lf["def"], site=lf["loc"], detail=paths):
         return None
@@ -245,6 +262,11 @@ def run_cfg(ctx, fx):
                     return False
                 l0 = next(iter(lr))
                 base, rest = paths.get(l0.site), [e for e in l0.proj if e != "*"] + proj
+            if field is None:
+                # the whole configuration (lent to a wrapper that reads the limit from it)
+                if base == "config" and not rest:
+                    continue
+                return False
             want_idx = t_field if field == "timeout" else f_field
             if base == "config." + field and not [e for e in rest if not str(e).startswith("f0")] and field != "timeout":
                 continue
@@ -272,10 +294,12 @@ def run_cfg(ctx, fx):
     rb = ctx.body(fx, rb_f)
     inv = [(bi, t) for bi, t, _ok in loops.task_invokes(fx, rb)]
     ok = len(wraps) == 1 and len(inv) == 1
+    sig = wrapper_sig(fx, wraps[0][1]) if wraps else None
+    ok = ok and sig is not None
     if ok:
         wt = wraps[0][1]
-        r0 = rb.origins(wt["args"][0])
-        ok = all(o.kind == "call" and o.site == (inv[0][0],) for o in r0) and is_cfg_field(rb, wt["args"][1], "timeout", bind)
+        r0 = rb.origins(wt["args"][sig[0]])
+        ok = all(o.kind == "call" and o.site == (inv[0][0],) for o in r0) and is_cfg_field(rb, wt["args"][sig[1]], "timeout" if sig[2] == "option" else None, bind)
     ctx.require(ok, "R11.1", "every-task-through-wrapper", "every Task's handler future must be handed to the timeout wrapper together with the configured timeout", fn=rb_f["def"], site=wraps[0][1]["l"] if wraps else lf["loc"])
     # R11.3 the reaction to the wrapper's outcome
     A = loops.lifecycle_alphabet()
@@ -297,7 +321,7 @@ def run_cfg(ctx, fx):
             l0 = next(iter(lr)) if len(lr) == 1 else None
             base = paths.get(l0.site) if (l0 is not None and l0.kind == "upvar") else None
             rest = ([e for e in l0.proj if e != "*"] if l0 is not None else []) + rest
-        if (base == "config.fail_on_timeout" and not rest) or (base == "config" and rest == ["f%d" % f_field]):
+        if (base == "config." + f_name and not rest) or (base == "config" and rest == ["f%d" % f_field]):
             flag_labels.add("bool:" + nm)
     if ctx.require(len(flag_labels) == 1, "R11.3", "plain-loop", "the reaction to a timeout never branches on fail_on_timeout (branches found: %s)" % sorted(flag_labels), fn=rb_f["def"], site=rb_f["loc"]):
         fl = next(iter(flag_labels))
@@ -323,13 +347,34 @@ def run_cfg(ctx, fx):
         wdef = wraps[0][1]["callee"]
         wco = [c for c in fx.children_of(wdef) if c["kind"] == "coroutine"]
         if ctx.require(len(wco) == 1, "R11.2", "wrapper-body", "body of the timeout wrapper %s not found" % wdef):
-            check_wrapper(ctx, fx, wco[0])
+            check_wrapper(ctx, fx, wco[0], sig or (0, 1, "option", -1))
     return None
 
 
-def check_wrapper(ctx, fx, co):
+def wrapper_sig(fx, t):
+    """which argument of the timeout wrapper's call is the handler future and which carries the limit — the limit itself
+    (`Option<Duration>`) or the configuration it is read from (`&EnvironmentConfig`, for a wrapper written as a method of
+    the configuration): (future index, limit index, 'option' | 'config', field index of `timeout` in the configuration)"""
+    tys = t.get("argtys", [])
+
+    def is_future(a):
+        return a.startswith("core::pin::Pin<alloc::boxed::Box<dyn core::future::future::Future") or a.startswith("impl Future") or a.startswith("impl core::future::future::Future")
+    fut = [i for i, a in enumerate(tys) if is_future(a)]
+    opt = [i for i, a in enumerate(tys) if a == "core::option::Option<core::time::Duration>"]
+    cfgs = [i for i, a in enumerate(tys) if a.replace("&", "").replace("mut ", "").strip() == "environment::EnvironmentConfig"]
+    cfg_fields = [fl["name"] for fl in fx.adts["environment::EnvironmentConfig"]["variants"][0]["fields"]] if "environment::EnvironmentConfig" in fx.adts else []
+    t_field = cfg_fields.index("timeout") if "timeout" in cfg_fields else -1
+    if len(fut) == 1 and len(opt) == 1:
+        return (fut[0], opt[0], "option", t_field)
+    if len(fut) == 1 and len(cfgs) == 1 and not opt:
+        return (fut[0], cfgs[0], "config", t_field)
+    return None
+
+
+def check_wrapper(ctx, fx, co, sig=(0, 1, "option", -1)):
     b = ctx.body(fx, co)
     inst = co["def"]
+    fut_up, lim_up, lim_kind, t_field_ = sig
     # arms: nested closures of the select
     arms = {}
     for g in fx.descendants(co["def"]):
@@ -356,7 +401,7 @@ def check_wrapper(ctx, fx, co):
         adts={"core::option::Option": "Option"}, retval=True,
         type_tags=[("Option<core::time::Duration>", "timeout")])
     A.adt_fn = lambda adt: "Sel" if adt.endswith("::__PrivResult") else None
-    A.upvar_futs = {0: "handler"}  # the handler future given to the wrapper, awaited directly or through map / fuse
+    A.upvar_futs = {fut_up: "handler"}  # the handler future given to the wrapper, awaited directly or through map / fuse
     n = nfa.build(b, A)
     viols, ps = nfa.check(n, WrapperSpec(delay_arm[0], fut_arm[0]))
     ctx.count_nfa(n.stats(), ps)
@@ -368,11 +413,12 @@ def check_wrapper(ctx, fx, co):
         c = t.get("callee") or ""
         if c.startswith("futures_timer::") and c.endswith("::new"):
             rs = b.origins(t["args"][0])
-            ok = all(o.kind == "upvar" and o.site == 1 and any(str(e).startswith("d1:Some") or str(e).startswith("d1") for e in o.proj) for o in rs) and rs
+            ok = all(o.kind == "upvar" and o.site == lim_up and any(str(e).startswith("d1:Some") or str(e).startswith("d1") for e in o.proj)
+                     and (lim_kind == "option" or [e for e in o.proj if e != "*"][:1] == ["f%d" % t_field_]) for o in rs) and rs
             ctx.require(ok, "R11.2", "delay-gets-configured-limit", "Delay::new must receive exactly the configured timeout: %s" % sorted(map(str, rs)), fn=inst, site=t["l"])
         if c.endswith("FutureExt::map"):
             rs = roots(b, t["args"][0])
-            ctx.require(all(r.kind == "upvar" and r.site == 0 for r in rs), "R11.2", "races-the-handler-future@" + t["l"].split(":")[-1], "the future raced / awaited must be the handler future given to the wrapper", fn=inst, site=t["l"])
+            ctx.require(all(r.kind == "upvar" and r.site == fut_up for r in rs), "R11.2", "races-the-handler-future@" + t["l"].split(":")[-1], "the future raced / awaited must be the handler future given to the wrapper", fn=inst, site=t["l"])
     # Err payload is ActorError::Timeout
     tos = [st for _bi, _si, st in agg_sites(b, adt="error::ActorError", variant="Timeout")]
     ctx.require(len(tos) == 1, "R11.2", "timeout-error", "the timer arm must produce ActorError::Timeout", fn=inst, site=co["loc"])
@@ -381,7 +427,7 @@ def check_wrapper(ctx, fx, co):
         srcs = set()
         for o in st["r"]["ops"]:
             for r in roots(b, o):
-                if r.kind == "upvar" and r.site == 0:
+                if r.kind == "upvar" and r.site == fut_up:
                     srcs.add("handler-future")
                 elif r.kind.startswith("call:futures_timer::"):
                     srcs.add("timer")
